@@ -15,6 +15,11 @@ type C13Case struct {
 	D          *Decl     `json:"decl"`
 	Lines      []IniLine `json:"lines"`
 	AsDefaults bool      `json:"as_defaults"`
+	// Bad: an entry with an unconvertible value, inserted before Lines[BadAt]
+	// (at least one entry follows it): like flags after a rejected flag, the
+	// entries after a rejected entry are not applied
+	Bad   *IniLine `json:"bad,omitempty"`
+	BadAt int      `json:"bad_at,omitempty"`
 }
 
 var _ = Register("C13", func() interface{} { return new(C13Case) }, func(c interface{}) string { return c13Oracle(c.(*C13Case)) })
@@ -100,11 +105,89 @@ func genC13(t *rapid.T) *C13Case {
 	c := &C13Case{D: d}
 	c.Lines = genIniLines(t, d, 8, true)
 	c.AsDefaults = rapid.Bool().Draw(t, "asDefaults")
+	if len(c.Lines) >= 1 && rapid.IntRange(0, 5).Draw(t, "rejectedEntry") == 0 {
+		var cands []IniLine
+		for _, o := range d.AllOpts() {
+			if _, isInt := intBits[o.Kind.Elem()]; (isInt || o.Kind == KFloat64 || o.Kind == KDuration) && !o.NoIni && !o.Kind.IsMap() {
+				sec := iniSectionsFor(d, o)[0]
+				scope, ok := iniScope(d, sec)
+				if r := iniResolve(scope, iniKeyOf(o)); ok && r != nil && r.ID == o.ID {
+					cands = append(cands, IniLine{Section: sec, Key: iniKeyOf(o), Value: "x!notanumber"})
+				}
+			}
+		}
+		if len(cands) > 0 {
+			b := cands[rapid.IntRange(0, len(cands)-1).Draw(t, "badEntry")]
+			c.Bad, c.BadAt = &b, rapid.IntRange(0, len(c.Lines)-1).Draw(t, "badAt")
+		}
+	}
 	return c
+}
+
+// c13Rejected: a file with one rejected entry; options addressed only by the
+// entries after it must be left as a read of the entries before it leaves them.
+func c13Rejected(c *C13Case) string {
+	st := S("C13")
+	prefix := append([]IniLine{}, c.Lines[:c.BadAt]...)
+	full := append(append(append([]IniLine{}, prefix...), *c.Bad), c.Lines[c.BadAt:]...)
+	if r := RefIni(c.D, append(append([]IniLine{}, prefix...), *c.Bad)); r.ErrKind != "bad-value" {
+		st.Label("skip: R does not single out the rejected entry")
+		return ""
+	}
+	ptext, _ := RenderIni(prefix)
+	ftext, _ := RenderIni(full)
+	p := RunIniRead(c.D, ptext, c.AsDefaults)
+	f := RunIniRead(c.D, ftext, c.AsDefaults)
+	if p.Panic != "" || f.Panic != "" || p.B == nil || f.B == nil || p.B.Err != nil || p.Err != nil {
+		st.Label("skip: panic, setup error or prefix rejected")
+		return ""
+	}
+	if f.Err == nil {
+		st.Label("skip: the unconvertible value was accepted (C11/C14)")
+		return ""
+	}
+	st.Label("rejected entry followed by further entries")
+	st.Eval() // the variant with the rejected entry is a second evaluation of this case
+	inPrefix := map[string]bool{}
+	for _, l := range append(prefix, *c.Bad) {
+		scope, _ := iniScope(c.D, l.Section)
+		if o := iniResolve(scope, l.Key); o != nil {
+			inPrefix[o.ID] = true
+		}
+	}
+	later := false
+	for _, l := range c.Lines[c.BadAt:] {
+		scope, _ := iniScope(c.D, l.Section)
+		o := iniResolve(scope, l.Key)
+		if o == nil || inPrefix[o.ID] {
+			continue
+		}
+		later = true
+		if o.Kind.IsFunc() {
+			for _, e := range f.B.CbLog {
+				if e.Opt == o.ID {
+					return fmt.Sprintf("the entry at line %d was rejected (%v), yet the callback of option %s, addressed only by a later entry, ran\n%s", c.BadAt+1, f.Err, o.ID, ftext)
+				}
+			}
+			continue
+		}
+		if ga, gb := f.B.OptVal[o.ID].Interface(), p.B.OptVal[o.ID].Interface(); !ValEqual(ga, gb) {
+			return fmt.Sprintf("an entry was rejected (%v), yet option %s (%s), addressed only by a later entry, was changed: holds %s, was %s (a rejected flag stops the command line in the same way)\n%s", f.Err, o.ID, o.Display(), ShowVal(ga), ShowVal(gb), ftext)
+		}
+	}
+	if later {
+		st.NonTrivial("rejected|"+ftext+declSig(c.D), map[string]interface{}{"file": ftext})
+	}
+	return ""
 }
 
 func c13Oracle(c *C13Case) string {
 	st := S("C13")
+	if c.Bad != nil && c.BadAt >= 0 && c.BadAt < len(c.Lines) {
+		if m := c13Rejected(c); m != "" {
+			return m
+		}
+	}
 	ref := RefIni(c.D, c.Lines)
 	if ref.ErrKind != "" {
 		st.Label("skip: R does not accept the file: " + ref.ErrKind)
